@@ -218,7 +218,8 @@ def Conn.hello (c : Conn) : Conn × Option Err :=
       let (c, r) := c.helo
       ({ c with helloErr := r }, r)
 
-def containsCRLF (b : Bytes) : Bool := b.any (fun x => x == 13 || x == 10)
+/-- validateLine: CR, LF or any other control character -/
+def containsCRLF (b : Bytes) : Bool := b.any (fun x => x < 32 || x == 127)
 
 /-- smtp.Client.Hello -/
 def Conn.Hello (c : Conn) (name : Bytes) : Conn × Option Err :=
